@@ -616,8 +616,9 @@ class ACSE:
                 if self.assoc.is_acceptor and is_collision:
                     self.send_release(is_response=True)
 
-                # (unless a concurrent abort() has already aborted and reported it)
-                if not self.assoc.is_aborted:
+                # (unless a concurrent abort() has already aborted and reported
+                # it, or the reactor has answered the peer's own release request)
+                if not self.assoc.is_aborted and not self.assoc.is_released:
                     self.assoc.is_released = True
                     self.assoc.is_established = False
                     evt.trigger(self.assoc, evt.EVT_RELEASED, {})
